@@ -752,6 +752,9 @@ class C19(Prop):
                    'args': [rng.choice(pool) for _ in range(rng.randint(0, 3))],
                    'kwargs': None if rng.random() < 0.3 else
                    {k: rng.choice(pool) for k in rng.sample(['p', 'q', 'n'], rng.randint(0, 2))}}
+        # Slot(): fresh ones after earlier ones had their default lists mutated in place
+        for n in (2, 3):
+            yield {'kind': 'slotdefault', 'n': n}
         # descriptions in sequence: every template for both classes, then random ones
         for cls in ('td', 'pd'):
             for tpl in ('default_before', 'after_verify', 'own_before', 'foreign', 'mixed'):
@@ -1168,7 +1171,19 @@ class C19(Prop):
             raise RuntimeError(out['err'])
         return out['ok']
 
+    def _run_slotdefault(self, case):
+        from radical.pilot.resource_config import Slot, RO
+        out = []
+        for i in range(case['n']):
+            sl = Slot()
+            out.append(self._tag_slot(sl))          # as constructed ...
+            sl.cores.append(RO(index=i, occupation=1.0))     # ... then mutated in place
+            sl.gpus.append(RO(index=i, occupation=0.5))
+        return {'fresh': out}
+
     def _run_case(self, case):
+        if case['kind'] == 'slotdefault':
+            return self._run_slotdefault(case)
         if case['kind'] == 'dseq':
             return self._run_dseq(case)
         if case['kind'] == 'envk':
@@ -1245,6 +1260,8 @@ class C19(Prop):
             return '(c19_slots_row %s %s %s %s %s)' % (
                 L.lst([self.OPS[o] for o in case['ops']]), L.lst([self._coq_slot(s) for s in case['slots']]),
                 L.lst(st), L.lst([self._coq_slot(s) for s in obs['input_after']]), L.boolean(obs['rerun_same']))
+        if case['kind'] == 'slotdefault':
+            return '(c19_slotdefault_row %s)' % L.lst([self._coq_slot(x) for x in obs['fresh']])
         if case['kind'] == 'dseq':
             if obs['errs']:
                 raise RuntimeError('verify raised in a sequence of valid descriptions: %s' % obs['errs'])
@@ -1310,6 +1327,8 @@ class C19(Prop):
         return L.lst(out)
 
     def model_show(self, case):
+        if case['kind'] == 'slotdefault':
+            return 'default_slot'
         if case['kind'] == 'dseq':
             T = case['cls'] + '_table'
             vf = 'verify' if case['cls'] == 'td' else 'pd_verify'
@@ -1344,6 +1363,8 @@ class C19(Prop):
 
     # ------------------------------------------------------------------ meta
     def nontrivial(self, case, obs):
+        if case['kind'] == 'slotdefault':
+            return True
         if case['kind'] == 'dseq':
             return True
         if case['kind'] == 'envk':
@@ -1357,6 +1378,8 @@ class C19(Prop):
         return callable(FUNCS[case['func']])
 
     def signature(self, case, obs, clause):
+        if case['kind'] == 'slotdefault':
+            return '%s:Slot:class-default-mutated' % clause
         if case['kind'] == 'dseq':
             # the one leak recorded for the unchanged tree: an attribute that still holds the CLASS default
             # object is mutated in place before verify() replaced it
@@ -1457,6 +1480,10 @@ class C19(Prop):
         return [i for i, _ in data]
 
     def shrink(self, case):
+        if case['kind'] == 'slotdefault':
+            if case['n'] > 2:
+                yield dict(case, n=case['n'] - 1)
+            return
         if case['kind'] == 'dseq':
             ops = case['ops']
 
@@ -1548,7 +1575,9 @@ class C19(Prop):
             c = r['case']
             kinds[c['kind']] = kinds.get(c['kind'], 0) + 1
             o = r['obs'] or {}
-            if c['kind'] == 'dseq':
+            if c['kind'] == 'slotdefault':
+                ops['slotdefault'] = ops.get('slotdefault', 0) + 1
+            elif c['kind'] == 'dseq':
                 k = 'dseq:%s:%s' % (c['cls'], c.get('template'))
                 ops[k] = ops.get(k, 0) + 1
             elif c['kind'] == 'envk':
